@@ -5,3 +5,6 @@ package server
 // verifYield marks a point where a verification build may perturb the schedule.
 // It does nothing (and is inlined away) in normal builds.
 func verifYield(site string) {}
+
+// verifRecovered reports a panic that a connection goroutine recovered from to a verification build.
+func verifRecovered(site string, v interface{}) {}
